@@ -197,7 +197,7 @@ cfg_seed(const cfg_t *cfg, size_t L) {
 		ctr[i] = (uint8_t)(cfg->ctr0 >> (8 * i));
 	tmp = (uint8_t *)malloc(L + 8);
 	for (n = 0; n <= L; n ++) { /* the state "n bytes processed", produced by one call from the start */
-		memset(&SNAP[n], 0, sizeof(SNAP[n]));
+		memset(&SNAP[n], 0x5a, sizeof(SNAP[n]));	/* an init that forgets a field must show */
 		chacha_str_init(&SNAP[n], KEYS[cfg->key_id], cfg->keylen, ctr, NONCES[cfg->nonce_id], cfg->rounds);
 		chacha_str_data_crypt(&SNAP[n], MSG, n, tmp);
 		SNAP_CANON_LEN[n] = canon(&SNAP[n], SNAP_CANON[n]);
